@@ -29,5 +29,17 @@ TEXTS = {
         "level_note": "Trusts that the harness is the only writer and the ingestion barrier; the probe set (SELECT * of every table plus a generated query) decides what 'stored data' is observable.",
         "technique": "property-based testing (rapid), before/after differential oracle",
     },
+    "C06": {
+        "level_text": "Exploration: generated datasets, storage splits and grouped queries decided by a raw-point reference aggregator (re-bucketing at the query anchor), hundreds to thousands of cases per run. Finds loss/overlap/off-by-one-bucket and average-of-averages defects that depend on the arithmetic relation of timestamps, period and clock.",
+        "design_ref": "DESIGN.md section 4 C06",
+        "level_note": "Trusts the reference aggregator and window arithmetic (h/ref.go, h/refquery.go), the ingestion barrier and the clock hook. No stride/crosstab here (C03/C04/C10/C11 cover them differentially).",
+        "technique": "property-based testing (rapid), reference-model oracle",
+    },
+    "C07": {
+        "level_text": "Exploration: as C06 with generated time ranges; the oracle is a must-include / may-include period set derived from the reference, so only window-edge behaviour the statement leaves open is tolerated.",
+        "design_ref": "DESIGN.md section 4 C07",
+        "level_note": "As C06; additionally trusts the statement's reading that a period straddling an unaligned bound may be included or not.",
+        "technique": "property-based testing (rapid), reference-model oracle with must/may sets",
+    },
 }
 NOT_APPLICABLE = []
